@@ -14,12 +14,28 @@ Proof.
 Qed.
 
 (* case analysis that does not depend on how the generated text nests its tests *)
+Ltac gen_atomic c :=
+  lazymatch c with
+  | context [if _ then _ else _] => fail
+  | context [match _ with _ => _ end] => fail
+  | _ => idtac
+  end.
+(* innermost tests first, so that an equation never mentions a test that is split later *)
 Ltac gen_split :=
   match goal with
   | |- context [match ?x with _ => _ end] => is_var x; destruct x
-  | |- context [if ?c then _ else _] => let E := fresh "E" in destruct c eqn:E
-  | |- context [match ?x with _ => _ end] => let E := fresh "E" in destruct x eqn:E
+  | |- context [if ?c then _ else _] => gen_atomic c; let E := fresh "E" in destruct c eqn:E
+  | |- context [match ?x with _ => _ end] => gen_atomic x; let E := fresh "E" in destruct x eqn:E
   end.
+
+(* equations between pairs / Some left behind by the case analysis *)
+Ltac gen_inj :=
+  repeat match goal with
+  | H : (_, _) = (_, _) |- _ => injection H as ? ?
+  | H : Some _ = Some _ |- _ => injection H as ?
+  | H : Some _ = None |- _ => discriminate H
+  | H : None = Some _ |- _ => discriminate H
+  end; subst.
 
 (* the reference (the fallback of the site) is the model's function *)
 Lemma route_ref_dw_get : forall m (x : dualwriter) lvl,
